@@ -622,6 +622,10 @@ class WebSocket(object):
             self._get_session(
                 self.state if state is None else state
             ).send(Opcode.CLOSE, frame_bytes)
+        except errors.WebSocketBusy:
+            # Not sent, but the connection is fine (close() was called
+            # from within a send on this thread); it isn't closing
+            raise
         except (errors.WebSocketUnavailable, errors.TransportFail):
             return False
         else:
